@@ -440,14 +440,17 @@ Section Sound.
      no session on the server *)
   Theorem client_cert_not_stored : forall p cs ss,
     p_ccert p = true -> r_mode (cn p cs ss) = Full ->
-    r_sops (cn p cs ss) = [] /\ post_s ss (cn p cs ss) = ss /\
+    forallb (fun o => negb (is_set o)) (r_sops (cn p cs ss)) = true /\
+    (forall k, get k (post_s ss (cn p cs ss)) = get k ss \/ get k (post_s ss (cn p cs ss)) = None) /\
     (o_out (r_s (cn p cs ss)) = Established -> o_sid (r_s (cn p cs ss)) = 0).
   Proof.
     intros p cs ss Hc Hm.
     destruct (conn_full_inv _ _ _ Hm) as [Hf|(Hr & _)].
-    - unfold post_s, conn. rewrite Hf. prj. repeat split; intros; try discriminate; reflexivity.
+    - unfold post_s, conn. rewrite Hf. prj. repeat split; intros; try discriminate; auto.
     - rewrite Hr. unfold post_s, conn_full. rewrite Hc. cbn [negb N.eqb].
-      destruct (p_fault p) eqn:Hf; brk; repeat split; intros; try discriminate; reflexivity.
+      destruct (p_fault p) eqn:Hf; brk; repeat split; intros; try discriminate; try reflexivity; auto;
+        cbn; match goal with |- get ?k (del ?k' _) = _ \/ _ =>
+               destruct (N.eq_dec k' k) as [->|Hn]; [right; apply get_del_same|left; apply get_del_other; exact Hn] end.
   Qed.
 
   (* an abbreviated handshake never writes a session *)
